@@ -43,7 +43,8 @@ def make_data(rs, algo, dt="float64", cls=None, order=None, rank_hint=None):
             slices = [rs.uniform(0, 1, (j, K)) for j in J]
         else:
             slices = [rs.standard_normal((j, K)) for j in J]
-        return {"kind": "slices", "slices": [s.astype(dt) for s in slices], "cls": cls, "shape": [list(s.shape) for s in slices]}
+        scale = float(gen.choice(rs, [1.0, 1.0, 1.0, 1e-3, 1e3] if str(dt) == "float64" else [1.0, 1.0, 1e-2, 10.0])) if cls != "integer" else 1.0
+        return {"kind": "slices", "slices": [(s * scale).astype(dt) for s in slices], "cls": cls if scale == 1.0 else cls + "*%g" % scale, "shape": [list(s.shape) for s in slices]}
     if algo == "cmtf":
         shp = gen.shape(rs, 3, 2, 6)
         m = int(rs.randint(2, 6))
@@ -58,7 +59,8 @@ def make_data(rs, algo, dt="float64", cls=None, order=None, rank_hint=None):
             X, M = np.round(X * 2), np.round(M * 2)
         if "nonneg" in cls:
             X, M = np.abs(X), np.abs(M)
-        return {"kind": "coupled", "X": X.astype(dt), "M": M.astype(dt), "cls": cls, "shape": [shp, [shp[0], m]]}
+        scale = float(gen.choice(rs, [1.0, 1.0, 1.0, 1e-3, 1e3] if str(dt) == "float64" else [1.0, 1.0, 1e-2, 10.0])) if cls != "integer" else 1.0
+        return {"kind": "coupled", "X": (X * scale).astype(dt), "M": (M * scale).astype(dt), "cls": cls if scale == 1.0 else cls + "*%g" % scale, "shape": [shp, [shp[0], m]]}
     order = order or int(rs.randint(2, 5))
     if algo in ("constrained_parafac",):
         order = max(order, 3)
@@ -83,7 +85,9 @@ def make_data(rs, algo, dt="float64", cls=None, order=None, rank_hint=None):
         X = -rs.uniform(0.1, 1, shp)
     else:
         X = rs.standard_normal(shp)
-    return {"kind": "tensor", "X": X.astype(dt), "cls": cls, "shape": shp}
+    # data in small or large units (norm << 1 or >> 1): unit mix-ups in error bookkeeping only show there
+    scale = float(gen.choice(rs, [1.0, 1.0, 1.0, 1e-3, 1e3] if str(dt) == "float64" else [1.0, 1.0, 1e-2, 10.0])) if cls not in ("integer",) else 1.0
+    return {"kind": "tensor", "X": (X * scale).astype(dt), "cls": cls if scale == 1.0 else cls + "*%g" % scale, "shape": shp}
 
 
 # ----------------------------------------------------------------------------------------------
